@@ -93,9 +93,11 @@ def _run_one(args):
             pin_to_one_cpu()
         mod = importlib.import_module(modname)
         workdir = shm_dir()
+        cov = _reach_start()
         try:
             out = mod.run_case(case, workdir)
         finally:
+            _reach_stop(cov)
             shutil.rmtree(workdir, ignore_errors=True)
         out.setdefault("violations", [])
         out["case"] = case
@@ -109,6 +111,28 @@ def _run_one(args):
         }
     finally:
         faulthandler.cancel_dump_traceback_later()
+
+
+def _reach_start():
+    """Reach measurement (tools/reach.py): with VERIF_COVERAGE_DIR set, record which lines of aspire a case executes.
+    Off by default; it only observes (no seam, no verdict depends on it)."""
+    d = os.environ.get("VERIF_COVERAGE_DIR")
+    if not d:
+        return None
+    import coverage
+
+    import aspire
+
+    cov = coverage.Coverage(data_file=os.path.join(d, "cov"), data_suffix=True, include=[os.path.dirname(aspire.__file__) + "/*"],
+                            config_file=False)
+    cov.start()
+    return cov
+
+
+def _reach_stop(cov):
+    if cov is not None:
+        cov.stop()
+        cov.save()
 
 
 def run_forked(modname: str, case: dict) -> dict:
